@@ -28,6 +28,10 @@ pub enum Beh {
     EventsClosing(u32),
     /// fetch the body (limit 1 000 000); the second call sends `k` events before it returns an event stream (the queue holds 50)
     UploadThenEvents(u32),
+    /// the documented helper: `req.recv_body(M)`
+    RecvBody(u64),
+    /// an event stream of `n` small events, then one that does not fit the encoder's read slice (70 000 bytes), then one more
+    EventsThenOversize(u32),
     /// an event stream whose `n` events of 30 000 bytes are all queued before the response is returned
     EventBurst(u32),
     /// a response that the serialiser refuses before it writes anything (it carries a Content-Length field of its own)
@@ -124,6 +128,17 @@ fn handler(req: Request) -> Response {
                 std::thread::sleep(Duration::from_millis(ms));
                 Response::text(200, format!("got-{path}-{}", req.body.len().unwrap_or(0)))
             }
+        }
+        Beh::RecvBody(m) => match req.recv_body(m) {
+            Ok(req) => Response::text(200, format!("got-{path}-{}", req.body.len().unwrap_or(0))),
+            Err(response) => response,
+        },
+        Beh::EventsThenOversize(n) => {
+            let (mut sender, r) = Response::event_stream();
+            for i in 1..=n { sender.send(servlin::Event::Message(format!("e{i}-{path}"))); }
+            sender.send(servlin::Event::Message("x".repeat(70_000)));
+            sender.send(servlin::Event::Message("never".to_string()));
+            r
         }
         Beh::EventBurst(n) => {
             let (mut sender, r) = Response::event_stream();
@@ -255,6 +270,8 @@ pub fn request_bytes(spec: &str) -> (Vec<u8>, String, Beh) {
         "Q" => Beh::UploadKeepClone,
         "U" => Beh::Unwritable,
         "B" => Beh::EventBurst(beh[1..].parse().unwrap()),
+        "R" => Beh::RecvBody(beh[1..].parse().unwrap()),
+        "O" => Beh::EventsThenOversize(beh[1..].parse().unwrap()),
         "w" => Beh::Wait(beh[1..].parse().unwrap()),
         "F" => {
             let parts: Vec<&str> = beh[1..].split('-').collect();
@@ -562,11 +579,12 @@ fn events_in_sequences(ctx: &mut Ctx, rng: &mut Rng) {
     let mut eidx = 50_000u64;
     for n in [1u32, 2, 3] {
         for sched in ["single", "frag", "mid"] {
-            for shape in 0..4 {
+            for shape in 0..5 {
                 eidx += 1;
                 if !ctx.mine(eidx) { continue; }
                 // shape 3: a burst of 30 000-byte events queued before the stream starts (several fit one read of the encoder, not all)
-                let reqs = if shape == 3 { format!("GET:/ev{eidx}:n::B{};GET:/after{eidx}:n::n200", n + 1) } else if shape == 2 { format!("GET:/pre{eidx}:n::n200;GET:/ev{eidx}:n::X{n};GET:/after{eidx}:n::n200") } else if shape == 0 { format!("GET:/ev{eidx}:n::E{n};GET:/after{eidx}:n::n200") }
+                // shape 4: the stream fails in mid-body (an event too large for the encoder): what was sent stays, nothing follows it
+                let reqs = if shape == 4 { format!("GET:/pre{eidx}:n::n200;GET:/ev{eidx}:n::O{n};GET:/after{eidx}:n::n200") } else if shape == 3 { format!("GET:/ev{eidx}:n::B{};GET:/after{eidx}:n::n200", n + 1) } else if shape == 2 { format!("GET:/pre{eidx}:n::n200;GET:/ev{eidx}:n::X{n};GET:/after{eidx}:n::n200") } else if shape == 0 { format!("GET:/ev{eidx}:n::E{n};GET:/after{eidx}:n::n200") }
                     else { format!("GET:/pre{eidx}:n::n200;GET:/ev{eidx}:n::E{n};POST:/post{eidx}:k:{}:n201;GET:/ev2{eidx}:n::E1", body(rng, 30)) };
                 case(ctx, "c04", "100", "1", sched, &reqs);
             }
@@ -957,6 +975,20 @@ pub fn run_c09(ctx: &mut Ctx) {
             let body = enc(&(0..l as usize).map(|i| b'a' + (i % 23) as u8).collect::<Vec<u8>>());
             case(ctx, "c09", "100", "1", "single", &format!("{method}:/r0:k:{body}:g{m};GET:/r1:n::n200"));
         }
+    }
+    // the handler supplies its limit through the documented helper `Request::recv_body(M)`
+    for (framing, l, m) in [("u", 1u64, 70_000u64), ("u", 1000, 70_000), ("u", 70_000, 70_000), ("u", 70_001, 70_000), ("v", 500, 1000), ("k", 5000, 5000), ("k", 101, 1_000_000), ("e", 3000, 3000), ("k", 50, 100)] {
+        idx += 1;
+        if !ctx.mine(idx) { continue; }
+        let body = enc(&(0..l as usize).map(|i| b'a' + (i % 23) as u8).collect::<Vec<u8>>());
+        case(ctx, "c09", "100", "1", "single", &format!("POST:/r0:{framing}:{body}:R{m}"));
+    }
+    // the disk fails while (or only when the file is closed after) a body within the limit is saved: never accepted
+    for (framing, l) in [("k", 4097u64), ("k", 6000), ("e", 5000), ("u", 4500), ("k", 300_000)] {
+        idx += 1;
+        if !ctx.mine(idx) { continue; }
+        let body = enc(&(0..l as usize).map(|i| b'a' + (i % 23) as u8).collect::<Vec<u8>>());
+        case(ctx, "c09", "100", "3", "single", &format!("POST:/r0:{framing}:{body}:g1000000"));
     }
     // declared lengths written with leading zeros (Content-Length = 1*DIGIT), also wider than the 20 digits of u64::MAX:
     // the same boundaries apply to the value, not to its spelling
